@@ -620,7 +620,11 @@ func (vc *VC) strLit(s string) *Val {
 		vc.strlits[s] = r
 		if len(s) <= 256 {
 			for i := 0; i < len(s); i++ {
-				vc.decls = append(vc.decls, fmt.Sprintf("(assert (= (select (select %s %s) %s) %s))", vc.heap0.m["bv8"], r, bvLitI(64, int64(i)), bvLitI(8, int64(s[i]))))
+				byteLit := bvLitI(8, int64(s[i]))
+				if vc.intMode {
+					byteLit = fmt.Sprint(int(s[i])) // integer modes: heap cells of integer kinds are Ints
+				}
+				vc.decls = append(vc.decls, fmt.Sprintf("(assert (= (select (select %s %s) %s) %s))", vc.heap0.m["bv8"], r, bvLitI(64, int64(i)), byteLit))
 			}
 			vc.consts = append(vc.consts, constFact{"bv8", r, vc.heap0.m["bv8"]})
 		}
